@@ -181,7 +181,7 @@ def check(chk):
         early = []
         for n in dnodes:
             for fa, c in flf.at(n):
-                if fa.knows("'unsupported protocol version' in response.message") is True and not c:
+                if fa.knows('isinstance(response, ProtocolException)') is True and fa.knows("'unsupported protocol version' in response.message") is not False and not c:
                     early.append(n)
         chk.judge(not early, 'C41.unsupported', pm, 'the flag is set before the connection is defuncted (which wakes the thread waiting in factory())',
                   'defunct() runs at line %s before is_unsupported_proto_version is set: factory() can wake on connected_event, find the flag still False and raise the bare '
